@@ -82,6 +82,8 @@ def run(ctx):
     # ---- C11.2
     ht = HR.HeaderTable(P, G)
     origin_slots(ctx, ht, 'C11.2')
+    from .c03 import output_frame_counts
+    output_frame_counts(ctx, ht, 'C11.2')
     allocation(ctx, 'C11.2')
     pl, prods = PR.producers(P, G)
     for pr in prods:
